@@ -27,9 +27,11 @@ const TEXTS: [&str; 24] = [
     "  \n", "x\rx", "{ {", "% }", "-", "+", "é", "\n\t\n",
 ];
 
-const RAW_TEXTS: [&str; 16] = [
+const RAW_TEXTS: [&str; 19] = [
     "", " ", "\n", "  \n  ", "x", "{{ x }}", "{% if %}", "{# c #}", "{{", "\n{% endif %}\n", " x ", "\r\n", "{%", "\t",
     "{% raw", "\n  ",
+    // first characters of the custom block starts used below (a block start that overlaps itself)
+    "[", "x[", "<",
 ];
 
 fn marker() -> BoxedStrategy<Marker> {
@@ -127,7 +129,7 @@ impl WsModel {
         // the rules do not depend on how the delimiters are spelled: the same sequence under two
         // custom syntaxes (one with prefix-sharing delimiters) must give the same output
         if v.fail.is_none() {
-            for d in [["<%", "%>", "<<", ">>", "<#", "#>"], ["<%", "%>", "<%=", "%>", "<%#", "%>"]] {
+            for d in [["<%", "%>", "<<", ">>", "<#", "#>"], ["<%", "%>", "<%=", "%>", "<%#", "%>"], ["[[", "]]", "[=", "=]", "[#", "#]"]] {
                 let syntax = minijinja::syntax::SyntaxConfig::builder()
                     .block_delimiters(d[0], d[1])
                     .variable_delimiters(d[2], d[3])
@@ -654,6 +656,13 @@ impl Part for PlainText {
                 "head\n{bs} for q in [1, 2] {be}\n{}\n  {bs} if q == 1 {be}\nfirst {cs} trailing comment {ce}\n{bs} endif {be}\n{bs} endfor {be}\ntail\n",
                 body_lines.join("\n")
             );
+            // both line-ending styles
+            for crlf in [false, true] {
+            let (with_lines, with_tags) = if crlf {
+                (with_lines.replace('\n', "\r\n"), with_tags.replace('\n', "\r\n"))
+            } else {
+                (with_lines.clone(), with_tags.clone())
+            };
             let a = env.render_named_str("t.txt", &with_lines, ());
             let mut env2 = Environment::new();
             let mut plain = syntax.clone();
@@ -675,6 +684,7 @@ impl Part for PlainText {
                 }
                 (x, y) => v.set_fail("line_statement_error", format!("{x:?} / {y:?}")),
             }
+            }
         }
         v
     }
@@ -683,7 +693,7 @@ impl Part for PlainText {
 crate::declare_parts!(WsModel, Delimiters, PlainText);
 
 pub fn run(ctx: &mut Ctx) {
-    ctx.rule = "(a) sequences of up to 8 segments: text over {space, tab, LF, CRLF, lone CR between letters, x, braces, %, #, NBSP, form feed, -, +} and tags {variable, block, comment, raw with content incl. tag look-alikes} with every marker in {none,-,+} on either side (and on both raw tags) x the 8 settings, compared with an independent model of the rules (one trailing line ending; - eats all adjacent whitespace; trim_blocks eats one line ending after block/comment/raw tags; lstrip_blocks eats horizontal whitespace between line start and a block/comment/raw tag; + disables the last two); all sequences of length <= 2 and all text-tag-text / tag-text-tag triples over a 37-symbol alphabet enumerated. (b) free-mode single-file programs (non-extreme) whose text statements are drawn from partial and look-alike delimiters, printed with the default delimiters and with each of 12 delimiter sets (prefix-sharing <% <%= <%#, nested << <<<, single brace, LaTeX, shared end markers, @@..@@, HTML comments, %%, {%% {{{ {##, multi-byte): same rendering or same error kind. (c) text spelling default delimiters under a non-overlapping custom syntax is verbatim; a loop/if written with line statements and line comments renders like whole-line block tags. Non-trivial: (a) a tag adjacent to text containing a line ending; (b) text containing the first character of a start delimiter. Distinct by case.".into();
+    ctx.rule = "(a) sequences of up to 8 segments: text over {space, tab, LF, CRLF, lone CR between letters, x, braces, %, #, NBSP, form feed, -, +} and tags {variable, block, comment, raw with content incl. tag look-alikes} with every marker in {none,-,+} on either side (and on both raw tags) x the 8 settings, compared with an independent model of the rules (one trailing line ending; - eats all adjacent whitespace; trim_blocks eats one line ending after block/comment/raw tags; lstrip_blocks eats horizontal whitespace between line start and a block/comment/raw tag; + disables the last two); all sequences of length <= 2 and all text-tag-text / tag-text-tag triples over a 37-symbol alphabet enumerated. (b) free-mode single-file programs (non-extreme) whose text statements are drawn from partial and look-alike delimiters, printed with the default delimiters and with each of 12 delimiter sets (prefix-sharing <% <%= <%#, nested << <<<, single brace, LaTeX, shared end markers, @@..@@, HTML comments, %%, {%% {{{ {##, multi-byte): same rendering or same error kind. (c) text spelling default delimiters under a non-overlapping custom syntax is verbatim; a loop/if written with line statements and line comments renders like whole-line block tags, with LF and with CRLF line endings. Non-trivial: (a) a tag adjacent to text containing a line ending; (b) text containing the first character of a start delimiter. Distinct by case.".into();
     ctx.assumptions = vec![
         "a lone CR is kept out of positions adjacent to tags (whether it is a line boundary is not documented)".into(),
         "horizontal whitespace = Unicode whitespace other than CR/LF".into(),
